@@ -22,6 +22,7 @@ type vChain struct {
 	expAttr  map[string]int
 	wrong    bool
 	curRec   *vRec // the recorder behind the response wrapper most recently passed on
+	seenAfter int  // status filter 0 observed on its Response after the chain returned (0: not observed)
 	panicAt  int // position at which to panic (-1 none): 2*i before filter i passes on, 2*i+1 after; 2*n handler before write, 2*n+1 after
 	panicVal string
 }
@@ -56,6 +57,9 @@ func (k *vChain) filter(f *vFilt, pos int) FilterFunction {
 			chain.ProcessFilter(nreq, nresp)
 		} else {
 			chain.ProcessFilter(req, resp)
+			if f.id == 0 {
+				k.seenAfter = resp.StatusCode()
+			}
 		}
 		k.maybePanic(2*pos + 1)
 	}
@@ -118,6 +122,10 @@ func vChainContainer(k *vChain, nc, ns, nr int, mwAt int) *Container {
 		ws.Filter(mk())
 	}
 	b := ws.GET("/a").To(k.handler)
+	b.If(func(r *http.Request) bool {
+		k.maybePanic(-5) // position -5: inside a route selection condition
+		return true
+	})
 	for i := 0; i < nr; i++ {
 		b.Filter(mk())
 	}
@@ -234,6 +242,15 @@ func H_C06(nc, ns, nr, mwAt, mode int) {
 			allPassed = vAnd(allPassed, !k.filts[i].stop)
 		}
 		verifAssert(vImp(allPassed, k.curRec.code() == 404), "C06: the routing error was not written to the response the container filters passed on")
+	}
+	if mode == 0 && len(k.log) > 0 && k.log[len(k.log)-1] == "H" && k.seenAfter != 0 {
+		// filter 0 passed its own pair on; unless a later filter replaced the pair, what it observes afterwards
+		// is what the handler sent
+		noReplace := true
+		for _, f := range k.filts {
+			noReplace = vAnd(noReplace, !f.replace)
+		}
+		verifAssert(vImp(noReplace, k.seenAfter == 201), "C06: a filter does not observe the handler's status on the response it passed on")
 	}
 	if mode == 0 && len(k.log) > 0 && k.log[len(k.log)-1] == "H" {
 		verifCover("handler-ran")
